@@ -758,6 +758,19 @@ pub fn gen_instance(rng: &mut Rng, p: &Profile) -> Inst {
             });
         }
     }
+    // now and then a maintenance slot one to three days away from the timetable (the planning
+    // horizon, to which dead-head durations are clamped, must cover the slots too)
+    if !maint.is_empty() && rng.chance(6) {
+        let k = rng.below(maint.len() as u64) as usize;
+        let shift = 86400 * rng.range(1, 3);
+        if rng.chance(75) {
+            maint[k].start += shift;
+            maint[k].end += shift;
+        } else if maint[k].start >= 86400 {
+            maint[k].start -= 86400;
+            maint[k].end -= 86400;
+        }
+    }
     // depots
     let depots = if p.fleet_heavy {
         None
